@@ -290,11 +290,13 @@ func endToEnd(c *mon.Ctx, r *gen.Rand) {
 		}
 		heldOPCR, heldOPCRVal = b, ref.DecPCR(b)
 	}
-	// PTS / DTS through a PES header, on every stream id that has the optional header
+	tightField(c, r)
+	// PTS / DTS through a PES header, on every stream id that has the optional header (0xBC, program_stream_map,
+	// has a syntax of its own in ISO/IEC 13818-1 and is left out)
 	sid := byte(0xe0)
 	if r.Bool() {
 		for {
-			sid = byte(0xbc + r.Intn(0x44))
+			sid = byte(0xbd + r.Intn(0x43))
 			if !ref.PESNoOptionalHeader(sid) {
 				break
 			}
@@ -365,6 +367,98 @@ func endToEnd(c *mon.Ctx, r *gen.Rand) {
 		c.Fail("e2e:pes-times-follow-callers-buffer", fmt.Sprintf("after the caller overwrote its buffer the decoded header reports PTS %d / DTS %d instead of %d / %d", ph.PTS(), ph.DTS(), h.PTS, h.DTS), wit{Op: "PTS after buffer re-use", Value: h.PTS})
 	}
 	c.Class(fmt.Sprintf("e2e/pcr=%v/opcr=%v/ptsdts=%d/pcrclass=%s/sid=%x", withP, withO, h.PTSDTS, popclass(v>>36), sid>>4))
+}
+
+// tightField: clock references in an adaptation field that is exactly as long as its content, in front of a
+// payload (the field cannot grow). They are read, overwritten in place and read back; then a setter that would
+// have to grow the field is called, and whether or not it is refused the clock references still read what was set.
+func tightField(c *mon.Ctx, r *gen.Rand) {
+	hasP, hasO := r.Bool(), r.Bool()
+	if !hasP && !hasO {
+		hasO = true
+	}
+	v, o := r.Uint64()%ref.PCRMax, r.Uint64()%ref.PCRMax
+	var p packet.Packet
+	r.Fill(p[:])
+	p[0], p[1], p[3] = 0x47, p[1]&0x5f, 0x30|p[3]&0x0f
+	n, fl := 1, byte(0)
+	if hasP {
+		copy(p[5+n:], sl(ref.EncPCR(v)))
+		n, fl = n+6, fl|0x10
+	}
+	if hasO {
+		copy(p[5+n:], sl(ref.EncPCR(o)))
+		n, fl = n+6, fl|0x08
+	}
+	p[4], p[5] = byte(n), fl|byte(r.Intn(8))<<5
+	pay := append([]byte{}, p[5+n:]...)
+	af, err := p.AdaptationField()
+	if err != nil {
+		c.Fail("e2e:tight-field-setup", "cannot obtain the adaptation field of a packet whose field is exactly as long as its content: "+err.Error(), wit{Op: "AdaptationField"})
+		return
+	}
+	c.Count("e2e.tight_field")
+	check := func(when string) bool {
+		c.Eval(1)
+		if hasP {
+			if g, err := af.PCR(); err != nil || g != v {
+				c.Fail("e2e:tight-field-pcr", fmt.Sprintf("%s: PCR() = %d, %v; the PCR in the field is %d", when, g, err, v), wit{Op: "PCR", Value: v, Got: fmt.Sprint(g)})
+				return false
+			}
+		}
+		if hasO {
+			if g, err := af.OPCR(); err != nil || g != o {
+				c.Fail("e2e:tight-field-opcr", fmt.Sprintf("%s: OPCR() = %d, %v; the OPCR in the field is %d", when, g, err, o), wit{Op: "OPCR", Value: o, Got: fmt.Sprint(g)})
+				return false
+			}
+			if b, err := adaptationfield.OPCR(&p); err != nil || ref.DecPCR(b) != o {
+				c.Fail("e2e:tight-field-opcr", fmt.Sprintf("%s: adaptationfield.OPCR bytes %x (%v) do not encode %d", when, b, err, o), wit{Op: "adaptationfield.OPCR", Value: o, Got: mon.Hex(b)})
+				return false
+			}
+		}
+		if got, err := p.Payload(); err != nil || !bytes.Equal(got, pay) {
+			c.Fail("e2e:tight-field-payload", fmt.Sprintf("%s: the payload behind the adaptation field changed (%v)", when, err), wit{Op: "Payload"})
+			return false
+		}
+		return true
+	}
+	if !check("as received") {
+		return
+	}
+	if hasP {
+		v = r.Uint64() % ref.PCRMax
+		if err := af.SetPCR(v); err != nil {
+			c.Fail("e2e:setpcr", "SetPCR on a present PCR failed: "+err.Error(), wit{Op: "SetPCR", Value: v})
+			return
+		}
+	}
+	if hasO {
+		o = r.Uint64() % ref.PCRMax
+		if err := af.SetOPCR(o); err != nil {
+			c.Fail("e2e:setopcr", "SetOPCR on a present OPCR failed: "+err.Error(), wit{Op: "SetOPCR", Value: o})
+			return
+		}
+	}
+	if !check("after the clock references were overwritten in place") {
+		return
+	}
+	// a field that is not there is asked for: there is no room, the call is expected to be refused
+	var e error
+	what := ""
+	switch k := r.Intn(4); {
+	case k == 0 && !hasP:
+		what, e = "SetHasPCR(true)", af.SetHasPCR(true)
+	case k == 1 && !hasO:
+		what, e = "SetHasOPCR(true)", af.SetHasOPCR(true)
+	case k == 2:
+		what, e = "SetHasSplicingPoint(true)", af.SetHasSplicingPoint(true)
+	default:
+		what, e = "SetHasTransportPrivateData(true)", af.SetHasTransportPrivateData(true)
+	}
+	if e != nil {
+		c.Count("e2e.tight_field_growth_refused")
+		check("after " + what + " was refused (" + e.Error() + ")")
+	}
 }
 
 func sl(a [6]byte) []byte { return a[:] }
@@ -506,5 +600,6 @@ func run(c *mon.Ctx) {
 		}
 		c.Class("concurrent-neighbour-bytes")
 	})
+	c.Floor("e2e.tight_field_growth_refused", 2000)
 	c.Stream("end-to-end", c.N(20000, 30000000), func(i int, r *gen.Rand) { endToEnd(c, r) })
 }
